@@ -1,6 +1,178 @@
-// tridiag kinds -- filled in by the corresponding check (see /verif/CONVENTIONS.md).
-#![allow(unused_imports, dead_code)]
+// Tridiagonal kinds (C05): tri.ctor tri.views tri.sets tri.arith tri.mul tri.solve tri.empty
+// Every API call runs under its own catch_unwind: Tridiagonal's explicit panics all carry
+// "Tridiagonal error"/"Tridiagonal matrix" (one of them reads "index out of bounds", which the
+// generic classifier would take for a Vec bounds failure), so the class is decided here.
+use std::any::Any;
+use std::panic::{catch_unwind, AssertUnwindSafe};
+use ohsl::{Tridiagonal, Vector};
 use crate::io::{Args, Out, Elt};
-pub fn run<T: Elt>(kind: &str, _a: &mut Args, _out: &mut Out) {
-    panic!("harness: unknown kind {}", kind);
+
+fn class_of(msg: &str) -> &'static str {
+    let c = crate::classify(msg);
+    if c == "harness" || c == "ratovf" { return c; }
+    if msg.starts_with("Tridiagonal") || msg.starts_with("Vector sizes") { "guard" } else { c }
+}
+
+// run f; on panic push P<class> and return None (harness/ratovf panics are passed on)
+fn caught<R>(out: &mut Out, f: impl FnOnce(&mut Out) -> R) -> Option<R> {
+    let mut tmp = Out::new();
+    let r = catch_unwind(AssertUnwindSafe(|| f(&mut tmp)));
+    match r {
+        Ok(v) => { out.toks.append(&mut tmp.toks); Some(v) }
+        Err(_) => {
+            let msg = crate::LAST_PANIC.with(|p| p.borrow().clone());
+            let cls = class_of(&msg);
+            if cls == "harness" || cls == "ratovf" { panic!("{}", msg); }
+            out.toks.push(format!("P{}", cls));
+            None
+        }
+    }
+}
+
+fn dump<T: Elt>(out: &mut Out, t: &Tridiagonal<T>) {
+    out.usize(t.size());
+    out.v(t.subdiagonal()); out.v(t.maindiagonal()); out.v(t.superdiagonal());
+}
+fn toks<T: Elt>(t: &Tridiagonal<T>) -> Vec<String> { let mut o = Out::new(); dump(&mut o, t); o.toks }
+fn vtoks<T: Elt>(v: &Vector<T>) -> Vec<String> { let mut o = Out::new(); o.v(v); o.toks }
+fn unchanged<T: Elt>(t: &Tridiagonal<T>, snap: &Vec<String>, what: &str) {
+    if &toks(t) != snap { panic!("harness: operand mutated by {}", what); }
+}
+
+fn read3<T: Elt>(a: &mut Args) -> (Vec<T>, Vec<T>, Vec<T>) {
+    let s = a.vec_std::<T>(); let m = a.vec_std::<T>(); let p = a.vec_std::<T>();
+    (s, m, p)
+}
+
+pub fn run<T: Elt>(kind: &str, a: &mut Args, out: &mut Out) {
+    match kind {
+        // tri.ctor <which> ...   -> dump or P
+        "tri.ctor" => {
+            let which = a.word();
+            match which {
+                "with_vecs" => { let (s, m, p) = read3::<T>(a);
+                    caught(out, |o| { let t = Tridiagonal::with_vecs(s, m, p); dump(o, &t); }); }
+                "with_vectors" => { let (s, m, p) = read3::<T>(a);
+                    caught(out, |o| { let t = Tridiagonal::with_vectors(Vector::create(s), Vector::create(m), Vector::create(p)); dump(o, &t); }); }
+                "new" => { let n = a.usize();
+                    caught(out, |o| { let t = Tridiagonal::<T>::new(n); dump(o, &t); }); }
+                "with_elements" => { let (x, y, z) = (a.s::<T>(), a.s::<T>(), a.s::<T>()); let n = a.usize();
+                    caught(out, |o| { let t = Tridiagonal::<T>::with_elements(x, y, z, n); dump(o, &t); }); }
+                "resize" => { let (s, m, p) = read3::<T>(a); let n = a.usize();
+                    caught(out, |o| { let mut t = Tridiagonal::with_vecs(s, m, p); t.resize(n); dump(o, &t); }); }
+                _ => panic!("harness: unknown tri.ctor {}", which),
+            }
+        }
+        // tri.empty: the n = 0 object and what each entry point does with it
+        "tri.empty" => {
+            let t = Tridiagonal::<T>::empty();
+            dump(out, &t);
+            caught(out, |o| { let d = t.convert(); o.m(&d); });
+            caught(out, |o| { let d = t.det(); o.s(&d); });
+            caught(out, |o| { let u = t.solve(&Vector::<T>::empty()); o.v(&u); });
+            caught(out, |o| { let u = &t * &Vector::<T>::empty(); o.v(&u); });
+        }
+        // tri.views <sub> <main> <sup>
+        "tri.views" => {
+            let (s, m, p) = read3::<T>(a);
+            let t = match caught(out, |_| Tridiagonal::with_vecs(s, m, p)) { Some(t) => t, None => return };
+            let snap = toks(&t);
+            dump(out, &t);
+            let n = t.size();
+            for i in 0..n + 1 { for j in 0..n + 1 {
+                caught(out, |o| { let x = t[(i, j)]; o.s(&x); });
+            } }
+            caught(out, |o| { let d = t.convert(); o.m(&d); });
+            unchanged(&t, &snap, "index/convert");
+            let tt = t.transpose();
+            unchanged(&t, &snap, "transpose");
+            dump(out, &tt);
+            let mut t2 = t.clone(); t2.transpose_in_place();
+            if toks(&t2) != toks(&tt) { panic!("harness: forms differ (transpose / transpose_in_place)"); }
+            caught(out, |o| { let d = tt.convert(); o.m(&d); });
+            caught(out, |o| { let d = t.det(); o.s(&d); });
+            unchanged(&t, &snap, "det");
+        }
+        // tri.sets <sub> <main> <sup> (<i> <j> <x>)*
+        "tri.sets" => {
+            let (s, m, p) = read3::<T>(a);
+            let mut t = match caught(out, |_| Tridiagonal::with_vecs(s, m, p)) { Some(t) => t, None => return };
+            dump(out, &t);
+            while a.more() {
+                let (i, j) = (a.usize(), a.usize()); let x = a.s::<T>();
+                let c = t.clone();
+                caught(out, |_| { t[(i, j)] = x; });
+                // the clone must be independent of the original
+                let _ = c;
+                dump(out, &t);
+            }
+        }
+        // tri.arith <sub> <main> <sup> <sub2> <main2> <sup2> <s>
+        "tri.arith" => {
+            let (s, m, p) = read3::<T>(a);
+            let (s2, m2, p2) = read3::<T>(a);
+            let x = a.s::<T>();
+            let t = match caught(out, |_| Tridiagonal::with_vecs(s, m, p)) { Some(t) => t, None => return };
+            let t2 = match caught(out, |_| Tridiagonal::with_vecs(s2, m2, p2)) { Some(t) => t, None => return };
+            let snap = toks(&t);
+            caught(out, |o| { let r = -(t.clone()); dump(o, &r); });
+            caught(out, |o| { let r = t.clone() + t2.clone(); dump(o, &r); });
+            caught(out, |o| { let r = t.clone() - t2.clone(); dump(o, &r); });
+            caught(out, |o| { let r = t.clone() * x; dump(o, &r); });
+            {   // f64 * Tridiagonal<f64> exists for f64 only
+                let tb: Box<dyn Any> = Box::new(t.clone());
+                let xb: Box<dyn Any> = Box::new(x);
+                if let (Ok(tf), Ok(xf)) = (tb.downcast::<Tridiagonal<f64>>(), xb.downcast::<f64>()) {
+                    caught(out, |o| { let r = *xf * *tf; dump(o, &r); });
+                }
+            }
+            caught(out, |o| { let r = t.clone() / x; dump(o, &r); });
+            caught(out, |o| { let mut r = t.clone(); r += x; dump(o, &r); });
+            caught(out, |o| { let mut r = t.clone(); r -= x; dump(o, &r); });
+            caught(out, |o| { let mut r = t.clone(); r *= x; dump(o, &r); });
+            caught(out, |o| { let mut r = t.clone(); r /= x; dump(o, &r); });
+            unchanged(&t, &snap, "arithmetic on clones");
+        }
+        // tri.mul <sub> <main> <sup> <v>
+        "tri.mul" => {
+            let (s, m, p) = read3::<T>(a);
+            let v = a.v::<T>();
+            let t = match caught(out, |_| Tridiagonal::with_vecs(s, m, p)) { Some(t) => t, None => return };
+            let (snap, vs) = (toks(&t), vtoks(&v));
+            let r = caught(out, |o| { let r = &t * &v; o.v(&r); r });
+            unchanged(&t, &snap, "&T * &v");
+            if vtoks(&v) != vs { panic!("harness: operand mutated by &T * &v"); }
+            let mut o2 = Out::new();
+            let r2 = caught(&mut o2, |_| t.clone() * v.clone());
+            match (r, r2) {
+                (Some(x), Some(y)) => if vtoks(&x) != vtoks(&y) { panic!("harness: owned/borrowed forms differ (T*v)"); },
+                (None, None) => {},
+                _ => panic!("harness: owned/borrowed forms differ (T*v panics)"),
+            }
+        }
+        // tri.solve <sub> <main> <sup> <r>   -> solution, or message code + P<class>
+        "tri.solve" => {
+            let (s, m, p) = read3::<T>(a);
+            let r = a.v::<T>();
+            let t = match caught(out, |_| Tridiagonal::with_vecs(s, m, p)) { Some(t) => t, None => return };
+            let (snap, rs) = (toks(&t), vtoks(&r));
+            let res = catch_unwind(AssertUnwindSafe(|| t.solve(&r)));
+            match res {
+                Ok(u) => out.v(&u),
+                Err(_) => {
+                    let msg = crate::LAST_PANIC.with(|p| p.borrow().clone());
+                    let cls = class_of(&msg);
+                    if cls == "harness" || cls == "ratovf" { panic!("{}", msg); }
+                    let code = if msg.contains("zero on leading diagonal") { 1 }
+                               else if msg.contains("zero pivot") { 2 }
+                               else if msg.contains("sizes do not agree") { 3 } else { 0 };
+                    out.int(code);
+                    out.toks.push(format!("P{}", cls));
+                }
+            }
+            unchanged(&t, &snap, "solve");
+            if vtoks(&r) != rs { panic!("harness: operand mutated by solve"); }
+        }
+        _ => panic!("harness: unknown kind {}", kind),
+    }
 }
